@@ -187,8 +187,8 @@ def text_task(t):
 
 
 def run(tier, seed):
-    depth = 3 if tier == "quick" else 4
-    maxlen = 2 if tier == "quick" else 3
+    depth = 4 if tier == "quick" else 5
+    maxlen = 3 if tier == "quick" else 4
     r1 = pool.run_tasks("checks.c11:hist_task", [(i, depth) for i in range(len(hist_events()))])
     r2 = pool.run_tasks("checks.c11:text_task", [(mi, maxlen, part) for mi in range(len(MARKERS)) for part in range(4)])
     res = r1 + r2
